@@ -972,6 +972,24 @@ def purity(seed, n):
                             os.remove(p)
                 elif q == 'equals':
                     val = bool(g.equals(g)) and all(bool(e.equals(e)) for e in g._edges) and all(bool(v.equals(v)) for v in g._vertices)
+                    # comparisons between DIFFERENT objects (a twin of the graph whose SE(2) angles sit on the other side of the +-pi cut, poses of
+                    # different vertices, measurements of different edges): they read both arguments, they write neither
+                    twin = copy.deepcopy(g)
+                    for tv in twin._vertices:
+                        if isinstance(tv.pose, PoseSE2):
+                            np.ndarray.__setitem__(tv.pose, 2, -float(tv.pose[2]) if abs(float(tv.pose[2])) > 1.6 else float(tv.pose[2]) + 3.1)
+                    tsnap = snapshot(twin)
+                    val = [val, bool(g.equals(twin)), bool(twin.equals(g))]
+                    va, vb = rng.choice(g._vertices), rng.choice(twin._vertices)
+                    if type(va.pose) is type(vb.pose):
+                        va.pose.equals(vb.pose)         # (a random pair: judged through the snapshots only, not as a repeated value)
+                        vb.pose.equals(va.pose)
+                    if snapshot(twin) != tsnap:
+                        fails.append({'law': 'equals() changed the numeric state of its ARGUMENT (a graph / pose that was only compared against)', 'seed': seed, 'case': i,
+                                      'kind': kind, 'step': step, 'edge': 'graph'})
+                        ok = False
+                        break
+                    val = str(val)
                 elif q == 'pose_ops':
                     v = rng.choice(g._vertices)
                     w = rng.choice(g._vertices)
@@ -1035,6 +1053,17 @@ def purity(seed, n):
         # optimize(): only vertex poses (and the first vertex's fixed flag) may change
         ffp = rng.random() < 0.5
         lonely = rng.random() < 0.25
+        # whatever was queried above, optimizing THIS graph object gives bitwise what optimizing a copy that has no history gives
+        fresh_twin = None
+        if not lonely and not share:
+            try:
+                es_t = [copy.copy(e) for e in g._edges]
+                vs_t = [Vertex(v.id, v.pose.copy(), fixed=bool(v.fixed)) for v in g._vertices]
+                for e in es_t:
+                    e.vertices = None
+                fresh_twin = Graph(es_t, vs_t)
+            except Exception:  # noqa
+                fresh_twin = None
         if lonely:
             # a vertex no edge refers to (an unobserved landmark): whatever that does to the solve, optimize() may only touch vertex poses
             extra_v = Vertex(10 ** 7 + i, g._vertices[-1].pose.copy())
@@ -1051,7 +1080,17 @@ def purity(seed, n):
                 if lonely:
                     g.optimize(tol=rng.choice([1e-4, 1e-8]), max_iter=20, fix_first_pose=ffp, verbose=False)
                 else:
-                    g.optimize(tol=1e-9, max_iter=rng.randint(1, 4), fix_first_pose=ffp, verbose=False)
+                    n_it = rng.randint(1, 4)
+                    g.optimize(tol=1e-9, max_iter=n_it, fix_first_pose=ffp, verbose=False)
+                    if fresh_twin is not None:
+                        fresh_twin.optimize(tol=1e-9, max_iter=n_it, fix_first_pose=ffp, verbose=False)
+                        a_ = [np.array(v.pose).tobytes() for v in g._vertices]
+                        b_ = [np.array(v.pose).tobytes() for v in fresh_twin._vertices]
+                        if a_ != b_ and all(np.all(np.isfinite(np.array(v.pose))) for v in fresh_twin._vertices):
+                            fails.append({'law': 'optimize() on a graph object that had been queried before (chi2 / gradient / Hessian evaluations, comparisons, exports) '
+                                                 'ends in different poses than optimize() on a freshly built copy of the same state', 'seed': seed, 'case': i, 'kind': kind,
+                                          'edge': 'graph'})
+                            continue
         except Exception as ex:  # noqa
             continue
         evals += 1
